@@ -35,6 +35,9 @@ type Case struct {
 	YieldSeed int `json:"yield_seed"`
 	YieldMode int `json:"yield_mode"`
 	YieldDens int `json:"yield_density"`
+	// Second: after the first stream has been handled (output closed), the SAME handler handles this second
+	// stream on fresh channels; it must be segmented losslessly and its output closed as well.
+	Second *gen.Stream `json:"second_stream_same_handler,omitempty"`
 }
 
 func pause(mode, k int) func(int) {
@@ -67,7 +70,8 @@ func check(c Case, o *stats.Obs) error {
 	}
 	vhsched.Configure(uint64(c.YieldSeed)+1, c.YieldMode, 30, uint64(dens))
 	defer vhsched.Configure(1, 0, 0, 1)
-	res := drive.Run(drive.NewHandler(slog.LevelInfo), input, drive.Options{
+	h := drive.NewHandler(slog.LevelInfo)
+	res := drive.Run(h, input, drive.Options{
 		InCap: c.InCap, OutCap: c.OutCap, Timeout: 20 * time.Second,
 		ProducerPause: pause(c.ProdMode, c.ProdK), ConsumerPause: pause(c.ConsMode, c.ConsK),
 	})
@@ -106,6 +110,23 @@ func check(c Case, o *stats.Obs) error {
 			d++
 		}
 		return fmt.Errorf("concatenated raw bytes differ from the input at offset %d (input %d bytes, delivered %d bytes in %d messages)\n input     %x\n delivered %x", d, len(input), len(cat), len(res.Msgs), input, cat)
+	}
+	if c.Second != nil {
+		in2 := c.Second.Bytes()
+		r2 := drive.Run(h, in2, drive.Options{InCap: c.InCap, OutCap: c.OutCap, Timeout: 20 * time.Second})
+		if r2.Panic != "" || r2.TimedOut || !r2.Closed {
+			o.Key = "second-stream-not-closed"
+			return fmt.Errorf("second stream through the same handler: panic=%q timed out=%v closed=%v (the output of every stream must be closed exactly once) (second stream %x)", r2.Panic, r2.TimedOut, r2.Closed, in2)
+		}
+		var cat2 []byte
+		for _, m := range r2.Msgs {
+			cat2 = append(cat2, m.RawData...)
+		}
+		if !bytes.Equal(cat2, in2) {
+			o.Key = "second-stream-not-lossless"
+			return fmt.Errorf("second stream through the same handler is not delivered losslessly: delivered %d of %d bytes (first stream %x, second %x)", len(cat2), len(in2), input, in2)
+		}
+		o.Class("handler-reused-for-second-stream")
 	}
 	segs := ref.Segments(input)
 	endsInside := false
@@ -177,6 +198,10 @@ func gen1(t *rapid.T) Case {
 	c.YieldSeed = rapid.IntRange(0, 1<<30).Draw(t, "yieldSeed")
 	c.YieldMode = rapid.IntRange(0, 2).Draw(t, "yieldMode")
 	c.YieldDens = rapid.SampledFrom([]int{3, 16, 64}).Draw(t, "yieldDensity")
+	if rapid.IntRange(0, 3).Draw(t, "second") == 2 {
+		s2 := gen.AnyStream(t, gen.Adversarial, 8, 60)
+		c.Second = &s2
+	}
 	if rapid.IntRange(0, 2).Draw(t, "pace") == 0 {
 		c.ProdMode = rapid.IntRange(0, 2).Draw(t, "prodMode")
 		c.ProdK = rapid.IntRange(1, 50).Draw(t, "prodK")
@@ -211,16 +236,29 @@ type SilenceCase struct {
 	PauseAt int        `json:"pause_at"`
 	PauseMs int        `json:"pause_ms"`
 	InCap   int        `json:"in_cap"`
+	// ConsumerStall: instead of the source going quiet, the consumer does not take message StallAt for PauseMs.
+	ConsumerStall bool `json:"consumer_stall"`
+	StallAt       int  `json:"stall_at_message"`
 }
 
 func checkSilence(c SilenceCase, o *stats.Obs) error {
 	input := c.Stream.Bytes()
-	res := drive.Run(drive.NewHandler(slog.LevelInfo), input, drive.Options{InCap: c.InCap, OutCap: 1, Timeout: 60 * time.Second,
-		ProducerPause: func(i int) {
+	opt := drive.Options{InCap: c.InCap, OutCap: 1, Timeout: 60 * time.Second}
+	if c.ConsumerStall {
+		opt.OutCap = 0
+		opt.ConsumerPause = func(i int) {
+			if i == c.StallAt {
+				time.Sleep(time.Duration(c.PauseMs) * time.Millisecond)
+			}
+		}
+	} else {
+		opt.ProducerPause = func(i int) {
 			if i == c.PauseAt {
 				time.Sleep(time.Duration(c.PauseMs) * time.Millisecond)
 			}
-		}})
+		}
+	}
+	res := drive.Run(drive.NewHandler(slog.LevelInfo), input, opt)
 	if res.Panic != "" || res.TimedOut || !res.Closed {
 		o.Key = "not-closed"
 		return fmt.Errorf("HandleMessages did not finish normally (panic %q, timed out %v, closed %v) with a %d ms silence before byte %d", res.Panic, res.TimedOut, res.Closed, c.PauseMs, c.PauseAt)
@@ -271,6 +309,10 @@ func genSilence(t *rapid.T) SilenceCase {
 		cands = others
 	}
 	c.PauseAt = rapid.SampledFrom(cands).Draw(t, "pauseAt")
+	if rapid.IntRange(0, 2).Draw(t, "consumerStall") == 1 {
+		c.ConsumerStall = true
+		c.StallAt = rapid.IntRange(1, 2).Draw(t, "stallAt")
+	}
 	return c
 }
 
